@@ -35,12 +35,16 @@ pub struct Frame {
     pub wild_rels: Vec<String>,
 }
 
-#[derive(Clone, Copy, Debug, Default)]
+#[derive(Clone, Debug, Default)]
 pub struct Ord {
+    /// names of the columns the sort in effect refers to
+    pub key_names: Vec<String>,
     pub ordered: bool,
     pub total: bool,
     /// the sort in effect has exactly one key and it is numeric & non-null
     pub one_numeric_key: bool,
+    /// a later select dropped a column the sort in effect refers to
+    pub key_dropped: bool,
 }
 
 #[derive(Clone, Copy, Debug, PartialEq, Eq)]
@@ -81,6 +85,9 @@ pub struct GenCfg {
     ///  win_over_win    window function over a windowed column (C07-window-over-window-sort-scope)
     ///  sorted_group_derive  `sort | take | group k (derive ..)` (C03-take-before-group-loses-sort)
     ///  sort_key_rename select that renames a column while a sort is in effect (C12-sort-key-rename-panic)
+    ///  dropped_key_join  a select drops a sort key, then a join follows (C03-dropped-sort-key-join)
+    ///  wild_let        a let-table with a wildcard frame (C07-wildcard-let-derive-name)
+    ///  const_fold      boolean literals inside logic / case conditions (fold to an alias of another column)
     ///  mul_right       `a * <expr>` with a non-atomic / computed right operand (C02-mul-right-operand-parens)
     pub hazards: Vec<&'static str>,
     /// `/` between two integer-typed operands (excluded under `generic`, whose `/` is the engine's)
@@ -442,6 +449,18 @@ impl<'t, 'd> Gen<'t, 'd> {
                     return c;
                 }
             }
+            if ty == Ty::Bool && !self.haz("const_fold") {
+                // boolean literals fold (`true && c` -> `c`, `case [false => ..]`), which makes a
+                // computed column an alias of another one (finding C05-same-column-merged family):
+                // use a comparison instead
+                for cty in [Ty::Int, Ty::Text, Ty::Float] {
+                    if let Some(c) = self.pick_col(frame, cty) {
+                        let op = *self.t.pick(&[BinOp::Eq, BinOp::Ne, BinOp::Lt, BinOp::Gte]);
+                        let l = self.lit(cty);
+                        return Expr::bin(op, c, l);
+                    }
+                }
+            }
             return self.lit(ty);
         }
         let d = depth - 1;
@@ -615,7 +634,17 @@ impl<'t, 'd> Gen<'t, 'd> {
         let n = 1 + self.t.choose(2);
         let mut bs = vec![];
         for _ in 0..n {
-            bs.push((self.expr(frame, Ty::Bool, d), self.expr(frame, ty, d)));
+            let mut c = self.expr(frame, Ty::Bool, d);
+            if Self::is_const_expr(&c) && !self.haz("const_fold") {
+                for cty in [Ty::Int, Ty::Text, Ty::Float] {
+                    if let Some(col) = self.pick_col(frame, cty) {
+                        let l = self.lit(cty);
+                        c = Expr::bin(BinOp::Eq, col, l);
+                        break;
+                    }
+                }
+            }
+            bs.push((c, self.expr(frame, ty, d)));
         }
         let all_const = bs.iter().all(|(c, _)| Self::is_const_expr(c));
         let force_default = all_const && !self.haz("const_null_fold");
@@ -638,9 +667,20 @@ impl<'t, 'd> Gen<'t, 'd> {
         let mut named = vec![];
         for p in &f.params {
             if p.default.is_none() {
-                args.push(self.expr(frame, Ty::Int, d.min(1)));
+                let mut a = self.expr(frame, Ty::Int, d.min(1));
+                // the argument is substituted into the body without parentheses
+                // (finding C02-mul-right-operand-parens)
+                let simple = match &a {
+                    Expr::Col(c) => !frame.cols.get(c.idx).map(|c| c.computed).unwrap_or(true),
+                    Expr::Lit(_) => true,
+                    _ => false,
+                };
+                if !simple && !self.haz("mul_right") {
+                    a = self.safe_leaf(frame, Ty::Int);
+                }
+                args.push(a);
             } else if self.t.chance(1, 2) {
-                named.push((p.name.clone(), self.expr(frame, Ty::Int, 0)));
+                named.push((p.name.clone(), self.safe_leaf(frame, Ty::Int)));
             }
         }
         let style = if !args.is_empty() && self.t.chance(1, 3) {
@@ -685,7 +725,8 @@ impl<'t, 'd> Gen<'t, 'd> {
                 let op = *self.t.pick(&[BinOp::Add, BinOp::Sub, BinOp::Mul]);
                 body = Expr::bin(op, body, Expr::Param(pi, p.name.clone()));
             }
-            if self.t.chance(1, 2) {
+            // never the identity (an identity function makes a column an alias of another one)
+            if params.len() == 1 || self.t.chance(1, 2) {
                 let op = *self.t.pick(&[BinOp::Add, BinOp::Mul, BinOp::Sub]);
                 body = Expr::bin(op, body, Expr::Lit(Val::Int(self.t.range(1, 3))));
             }
@@ -759,7 +800,7 @@ impl<'t, 'd> Gen<'t, 'd> {
     }
 
     /// window expression usable in derive/select/filter given the order state and frame kind
-    fn win_expr(&mut self, frame: &Frame, ord: Ord, wf: WFrame) -> (Expr, Ty) {
+    fn win_expr(&mut self, frame: &Frame, ord: &Ord, wf: WFrame) -> (Expr, Ty) {
         // a window function over a windowed column (finding C07-window-over-window-sort-scope)
         let mut masked = frame.clone();
         if !self.haz("win_over_win") {
@@ -1058,7 +1099,7 @@ impl<'t, 'd> Gen<'t, 'd> {
         Step::Select(items)
     }
 
-    fn gen_derive(&mut self, frame: &mut Frame, ord: Ord, wf: WFrame, window_ok: bool) -> Step {
+    fn gen_derive(&mut self, frame: &mut Frame, ord: &Ord, wf: WFrame, window_ok: bool) -> Step {
         let n = 1 + self.t.choose(2);
         let mut items = vec![];
         for _ in 0..n {
@@ -1195,10 +1236,22 @@ impl<'t, 'd> Gen<'t, 'd> {
                 Expr::Col(c) => frame.cols[c.idx].ty.numeric(),
                 _ => false,
             };
+        let mut key_names = vec![];
+        for k in &keys {
+            k.expr.walk(&mut |x| {
+                if let Expr::Col(c) = x {
+                    if let Some(n) = frame.cols.get(c.idx).and_then(|c| c.name.clone()) {
+                        key_names.push(n);
+                    }
+                }
+            });
+        }
         *ord = Ord {
+            key_names,
             ordered: true,
             total,
             one_numeric_key: one_numeric,
+            key_dropped: false,
         };
         Some(Step::Sort(keys))
     }
@@ -1509,6 +1562,9 @@ impl<'t, 'd> Gen<'t, 'd> {
             if keys.iter().any(|k| k.idx == i) {
                 continue;
             }
+            if frame.cols[i].is_const {
+                self.touch("const_group_key");
+            }
             keys.push(ColRef { idx: i, text });
         }
         let hok = self.helpers_ok();
@@ -1575,9 +1631,9 @@ impl<'t, 'd> Gen<'t, 'd> {
                         inner.push(s);
                     }
                 }
-                let wf = self.gen_wframe(o);
+                let wf = self.gen_wframe(&o);
                 let before = inner_frame.cols.len();
-                let d = self.gen_derive(&mut inner_frame, o, wf, true);
+                let d = self.gen_derive(&mut inner_frame, &o, wf, true);
                 // carry the derived columns (and any shadowing) over to the outer frame
                 for (i, c) in inner_frame.cols.iter().enumerate() {
                     if i < before {
@@ -1617,7 +1673,7 @@ impl<'t, 'd> Gen<'t, 'd> {
         frame.cols = cols;
     }
 
-    fn gen_wframe(&mut self, o: Ord) -> WFrame {
+    fn gen_wframe(&mut self, o: &Ord) -> WFrame {
         if !o.ordered {
             return WFrame::Default;
         }
@@ -1727,6 +1783,10 @@ impl<'t, 'd> Gen<'t, 'd> {
                 w[4] = if si + 1 == n { 1 } else { 0 };
             }
             let append_risky = self.cur_src_let || ord.ordered || !self.simple_so_far;
+            if ord.ordered && ord.key_dropped && !self.haz("dropped_key_join") {
+                // sort key dropped by a select, then a join: finding C03-dropped-sort-key-join
+                w[5] = 0;
+            }
             if self.in_sub && !self.haz("sorted_let") {
                 w[3] = 0;
                 w[4] = 0;
@@ -1767,13 +1827,13 @@ impl<'t, 'd> Gen<'t, 'd> {
                 0 => Some(self.gen_select(frame)),
                 1 => {
                     let window_ok = self.t.chance(1, 4);
-                    Some(self.gen_derive(frame, *ord, WFrame::Default, window_ok))
+                    Some(self.gen_derive(frame, &ord.clone(), WFrame::Default, window_ok))
                 }
                 2 => {
                     if self.cfg.bias == Bias::Window && self.helpers_ok() && self.t.chance(1, 3) {
                         if self.wild_prog { self.touch("wild_helpers"); }
                         // filter on a windowed value
-                        let (we, ty) = self.win_expr(frame, *ord, WFrame::Default);
+                        let (we, ty) = self.win_expr(frame, &ord.clone(), WFrame::Default);
                         let cmp = match ty {
                             Ty::Int | Ty::Float => Expr::bin(BinOp::Gt, we, self.lit(Ty::Int)),
                             Ty::Text => Expr::bin(BinOp::Ne, we, self.lit(Ty::Text)),
@@ -1787,6 +1847,7 @@ impl<'t, 'd> Gen<'t, 'd> {
                 3 => self.gen_sort(frame, ord, false),
                 4 => Some(self.gen_take()),
                 5 => {
+                    if ord.ordered && ord.key_dropped { self.touch("dropped_key_join"); }
                     let js = self.gen_join(frame, ord, depth);
                     steps.extend(js);
                     None
@@ -1802,8 +1863,8 @@ impl<'t, 'd> Gen<'t, 'd> {
                 }
                 7 => self.gen_group(frame, ord),
                 8 => {
-                    let wf = self.gen_wframe(*ord);
-                    let d = self.gen_derive(frame, *ord, wf, true);
+                    let wf = self.gen_wframe(&ord.clone());
+                    let d = self.gen_derive(frame, &ord.clone(), wf, true);
                     Some(Step::Window {
                         frame: wf,
                         inner: vec![d],
@@ -1838,6 +1899,12 @@ impl<'t, 'd> Gen<'t, 'd> {
                     }
                 }
             };
+            if matches!(st, Some(Step::Select(_)) | Some(Step::SelectExcept(_))) && ord.ordered {
+                let names: Vec<&String> = frame.cols.iter().filter_map(|c| c.name.as_ref()).collect();
+                if ord.key_names.iter().any(|k| !names.contains(&k)) {
+                    ord.key_dropped = true;
+                }
+            }
             if let Some(s) = st {
                 steps.push(s);
             }
@@ -1893,7 +1960,10 @@ impl<'t, 'd> Gen<'t, 'd> {
         };
         let mut steps = vec![];
         // known-frame mode: begin with a select of (a subset of) the columns
-        let wild_ok = self.wild_prog && self.t.chance(2, 3);
+        // wildcard relations only in the main pipeline: a derive inside a wildcard let-table loses
+        // its name (finding C07-wildcard-let-derive-name)
+        let wild_ok = self.wild_prog && (!self.in_sub || self.haz("wild_let")) && self.t.chance(2, 3);
+        if wild_ok && self.in_sub { self.touch("wild_let"); }
         if !wild_ok && !frame.wild_rels.is_empty() {
             // select all columns, in order, possibly dropping some
             let mut items = vec![];
